@@ -1,39 +1,21 @@
 //! Scratch experiments (not a registered check).
 use serde_json::json;
-use crate::hist::{self, Ctx, Driver, Enc, Op, Signer};
+use crate::hist::{self, Driver, Op};
 use crate::rpc::Inst;
-use crate::asm;
 
 pub fn run() {
-    let net = std::env::var("EXP_NET").unwrap_or("regtest".into());
-    let commit = std::env::var("EXP_COMMIT").is_ok();
-    crate::setup_env(&net, true);
+    let net = std::env::var("EXP_NET").unwrap_or("bitcoin".into());
+    let base: u64 = std::env::var("EXP_BASE").ok().and_then(|x| x.parse().ok()).unwrap_or(253);
+    crate::setup_env(&net, false);
     let dir = crate::rpc::fresh_dir("exp");
     let mut d = Driver::new(Inst::open(&dir).unwrap());
-    d.exec(Op::Init { hash: hist::ZERO_HASH.into(), ts: 1, height: 0 });
-    let s = Signer::new(77);
-    let chain = crate::rpc::chain_id_for(&net);
-    let h1 = hist::bh(0xe1);
-    let mut data = asm::tool_init();
-    data.push(1);
-    let raw = s.sign(Some(chain), 3, None, &data);
-    let r = d.exec(Op::Transact { raw: format!("0x{}", raw), enc: Enc::Hex, ctx: Ctx { ts: 5, hash: h1.clone(), idx: 0 }, iid: "p1i0".into(), len: 200_000, txid: hist::ZERO_HASH.into() });
-    println!("park nonce 3 in block 1: {}", r.short());
-    d.exec(Op::Finalise { ts: 5, hash: h1, count: 0 });
-    d.exec(Op::Mine { n: 1, ts: 6 });
-    if commit {
-        println!("commit: {}", d.exec(Op::Commit).short());
-    }
-    println!("pool after block 2: {}", d.inst.call("txpool_contentFrom", json!([hist::addr_hex(&s.addr)])).short());
-    let h3 = hist::bh(0xe3);
-    if std::env::var("EXP_SAME").is_err() {
-        data.push(2);
-    }
-    let raw2 = s.sign(Some(chain), 3, None, &data);
-    let r = d.exec(Op::Transact { raw: format!("0x{}", raw2), enc: Enc::Hex, ctx: Ctx { ts: 9, hash: h3.clone(), idx: 0 }, iid: "p2i0".into(), len: 200_000, txid: hist::ZERO_HASH.into() });
-    println!("replace nonce 3 in open block 3: {}", r.short());
-    println!("pool mid-block: {}", d.inst.call("txpool_contentFrom", json!([hist::addr_hex(&s.addr)])).short());
-    println!("reorg(2): {}", d.exec(Op::Reorg { n: 2 }).short());
-    println!("pool after reorg(2): {}", d.inst.call("txpool_contentFrom", json!([hist::addr_hex(&s.addr)])).short());
+    d.mine_to(base);
+    println!("init at {}: {}", base, d.exec(Op::Init { hash: hist::bh(1), ts: 5, height: base }).short());
+    println!("code at controller: {}", d.inst.call("eth_getCode", json!([hist::CONTROLLER])).short().len());
+    d.exec(Op::Mine { n: 3, ts: 6 });
+    let h = d.next_height();
+    println!("init again at {}: {}", h, d.exec(Op::Init { hash: hist::bh(2), ts: 9, height: h }).short());
+    println!("height now {}", d.inst.call("eth_blockNumber", json!([])).short());
+    println!("init again same hash at {}: {}", base, d.exec(Op::Init { hash: hist::bh(1), ts: 5, height: base }).short());
     crate::rpc::remove_dir(&crate::rpc::process_work_dir("exp"));
 }
